@@ -2,6 +2,7 @@
 import sys
 
 from sa import crosslist as XL
+from sa import rules_r10 as R10
 from sa import rules_r6b as R6B
 from sa import rules_r6 as R6
 from sa import report, rules_opts as RO, rules_emit as RE
@@ -39,6 +40,7 @@ def run(ctx, repo):
     ctx.call(R6B.r_option_immutable, repo, ['emitter.Emitter', 'serializer.Serializer', 'representer.BaseRepresenter'])
     ctx.call(RX.r_simple_key_fits, repo)
     XL.emit_readable(ctx, repo)
+    ctx.call(R10.r_canonical_no_simple_key, repo)
 
 
 if __name__ == '__main__':
